@@ -11,7 +11,7 @@
 (*   a loop (only induction-variable instructions of loops are virtualised  *)
 (*   away by design)                                                        *)
 (***************************************************************************)
-EXTENDS Integers, Sequences, TLC
+EXTENDS Integers, Sequences, TLC, Json, IOUtils
 VARIABLES l, ok
 ZipOK(e) ==
   e.err \/
@@ -22,7 +22,8 @@ ZipOK(e) ==
   /\ (e.loops = 0 => (e.added = e.unpaired_new /\ e.removed = e.unpaired_old))
   /\ (e.preserved <=> (e.added = 0 /\ e.removed = 0))
 EvOK(e) == IF e.ev = "zip" THEN ZipOK(e) ELSE TRUE
-T == INSTANCE TraceStateless WITH EventOK <- EvOK
+TraceData == ndJsonDeserialize(IOEnv.TRACE)
+T == INSTANCE TraceStateless WITH EventOK <- EvOK, Trace <- TraceData
 Spec == T!TSSpec
 Accepted == T!TSAccepted
 =============================================================================
